@@ -32,6 +32,18 @@ def run(ck, prop, sj, progs, tier):
         case_of[(i, tag)] = cid
     ck.notes["programs"] = len(progs)
     ck.notes["generation_failed"] = gen_fail
+    wit = {}
+    if prop == "C01":
+        for finding, w in ck.witnesses():
+            sp = os.path.join(workdir, "witness_%s.graphql" % finding["id"])
+            vlib.write_if_changed(sp, w["schema_sdl"])
+            rs, _ = vlib.gqlv("gen", [{"id": finding["id"], "schema_path": sp, "query": w["query"], "options": dict(BASE_OPTS), "want_tokens": True}])
+            if rs[0]["status"] == "ok":
+                cid = "w_%s" % finding["id"].lower()
+                cons.add_case(cid, progcheck.PRELUDE + rs[0]["tokens"], "MyOp", kinds=("resp",))
+                wit[cid] = (finding, w)
+            else:
+                ck.witness_result(finding, False, "generation now fails: %s" % rs[0].get("msg"))
     errs = cons.build()
     ck.notes["compile_failed_cases"] = len(errs)
     if errs:
@@ -53,7 +65,13 @@ def run(ck, prop, sj, progs, tier):
                 jid2 = jid + "|s"
                 jobs.append({"id": jid2, "case": cid, "kind": "resp_str", "input": json.dumps(pl)})
                 meta[jid2] = (i, tag, vi, pl)
+    for cid, (finding, w) in wit.items():
+        jobs.append({"id": "witness|" + cid, "case": cid, "kind": "resp", "input": w["payload"]})
     obs = cons.run(jobs)
+    for cid, (finding, w) in wit.items():
+        o = obs.get("witness|" + cid) or {}
+        lossless = "ok" in o and payload.match(w["payload"], o["ok"]) is None and payload.match(o["ok"], w["payload"]) is None
+        ck.witness_result(finding, (cid in errs) or not lossless, "payload now round-trips: %s" % json.dumps(o)[:200])
     feats = {}
     for jid, (i, tag, vi, pl) in meta.items():
         r = obs.get(jid)
